@@ -683,7 +683,6 @@ mod verif_hashtbl {
     #[kani::proof]
     #[kani::unwind(17)]
     #[kani::stub(RawTable::next_capacity, next_capacity_class_16)]
-    #[kani::solver(kissat)]
     fn dev_rehash_nk2() {
         fofis_rehash_case(2);
     }
